@@ -50,6 +50,9 @@ type Chain struct {
 	// DuringRescan runs inside a Rescan, after the scan range was fixed and
 	// before RescanFinished is emitted; it may extend the chain.
 	DuringRescan func()
+	// AfterRescan runs right behind the RescanFinished notification, in the same
+	// goroutine: whatever it sends are the backend's very next notifications.
+	AfterRescan func()
 
 	notifyCalls int
 	bestCalls   int
@@ -386,6 +389,7 @@ func (c *Chain) Rescan(start *chainhash.Hash, addrs []btcutil.Address, ops map[w
 	}
 	ch := c.ntfn
 	during := c.DuringRescan
+	after := c.AfterRescan
 	c.mu.Unlock()
 	go func() {
 		scanned := startH
@@ -426,6 +430,9 @@ func (c *Chain) Rescan(start *chainhash.Hash, addrs []btcutil.Address, ops map[w
 		fin := &chain.RescanFinished{Hash: &th, Height: int32(scanned), Time: tip.Header.Timestamp}
 		c.mu.Unlock()
 		c.send(ch, fin)
+		if after != nil {
+			after()
+		}
 	}()
 	return nil
 }
